@@ -60,6 +60,14 @@ class Typer:
                 return self.elementwise([self.ev(x, env) for x in elts], "num")
             a = self.ev(e.value, env)
             sl = e.slice
+            if isinstance(sl, ast.Slice) and a is not None and isinstance(a.idx, str) and sl.lower is not None and not (isinstance(sl.lower, ast.Constant) and sl.lower.value in (0, None)) and sl.step is None:
+                # a block of an array starting at a non-trivial offset: positions inside are relative to the block
+                return Arr(f"{a.idx}@{ast.unparse(sl.lower)}", a.val)
+            if isinstance(sl, ast.Tuple) and len(sl.elts) == 2 and a is not None:
+                # x[:, None] / x[None, :] keep the layout of x along the kept axis (used for broadcast comparisons)
+                kinds_ = [("all" if isinstance(x, ast.Slice) and x.lower is None and x.upper is None else "new" if isinstance(x, ast.Constant) and x.value is None else "?") for x in sl.elts]
+                if sorted(kinds_) == ["all", "new"]:
+                    return Arr(a.idx, a.val)
             if isinstance(sl, (ast.Slice, ast.Constant)) or (isinstance(sl, ast.Tuple)):
                 return Arr(None, a.val if a else None) if a else None
             b = self.ev(sl, env)
@@ -69,10 +77,23 @@ class Typer:
                 return Arr(None, a.val)
             if b.val == "bool":
                 return Arr(a.idx, a.val)
+            if isinstance(a.idx, tuple):
+                return Arr(a.idx, a.val)
             self.check_index(e, a, b, "read")
             return Arr(b.idx, a.val)
         if isinstance(e, ast.Call):
             return self.call(e, env)
+        if isinstance(e, ast.Compare) and len(e.ops) == 1 and isinstance(e.ops[0], (ast.Eq, ast.NotEq)):
+            l, r = self.ev(e.left, env), self.ev(e.comparators[0], env)
+            # broadcast comparison of a column vector with a row vector: a 2-d table (rows of l x positions of r)
+            if l is not None and r is not None and isinstance(e.left, ast.Subscript) and isinstance(e.left.slice, ast.Tuple) and isinstance(l.idx, str) and isinstance(r.idx, str):
+                return Arr((l.idx, r.idx), "bool")
+        if isinstance(e, ast.BinOp) and isinstance(e.op, ast.Add):
+            # block-relative position + the block's offset = position in the whole array
+            for me, other in ((e.left, e.right), (e.right, e.left)):
+                v = self.ev(me, env)
+                if v is not None and isinstance(v.val, str) and "@" in v.val and v.val.split("@", 1)[1] == ast.unparse(other):
+                    return Arr(v.idx, v.val.split("@", 1)[0])
         if isinstance(e, (ast.BinOp, ast.BoolOp, ast.UnaryOp, ast.Compare, ast.IfExp)):
             subs = [self.ev(x, env) for x in ast.iter_child_nodes(e) if isinstance(x, ast.expr)]
             return self.elementwise(subs, "bool" if isinstance(e, (ast.Compare, ast.BoolOp)) else "num")
@@ -87,7 +108,8 @@ class Typer:
         args = [self.ev(a, env) for a in c.args]
         kw = {k.arg: k.value for k in c.keywords if k.arg}
         # method spelling a.argsort()
-        recv = self.ev(c.func.value, env) if isinstance(c.func, ast.Attribute) and not full.startswith(("numpy.", "np.", "npg.", "numpy_groupies.", "jnp.")) else None
+        is_module_call = isinstance(c.func, ast.Attribute) and isinstance(c.func.value, ast.Name) and c.func.value.id in ("numpy", "np", "npg", "numpy_groupies", "jnp", "jax", "math", "bisect", "pd", "pandas")
+        recv = self.ev(c.func.value, env) if isinstance(c.func, ast.Attribute) and not is_module_call else None
         if recv is not None:
             args = [recv, *args]
         a0 = args[0] if args else None
@@ -95,6 +117,18 @@ class Typer:
             if a0.perm and _is_pos(a0.idx) and _is_pos(a0.val):
                 return Arr(a0.val, a0.idx, perm=True)  # argsort of a permutation is its inverse
             return Arr(f"S{next(self.k)}", a0.idx, perm=True)
+        axis = kw.get("axis")
+        axis = axis.value if isinstance(axis, ast.Constant) else None
+        if a0 is not None and isinstance(a0.idx, tuple) and len(a0.idx) == 2 and axis in (0, 1):
+            keep, along = a0.idx[1 - axis], a0.idx[axis]
+            if last in ("argmax", "argmin"):
+                return Arr(keep, along)  # for each kept position: a position along the reduced axis
+            if last in ("any", "all", "sum", "max", "min"):
+                return Arr(keep, "bool" if last in ("any", "all") else "num")
+        if last == "take" and a0 is not None and len(args) >= 2 and args[1] is not None and isinstance(a0.idx, str):
+            if args[1].val != "bool":
+                self.check_index(c, a0, args[1], "read")
+            return Arr(args[1].idx, a0.val)
         if last == "sort" and a0 is not None:
             return Arr(f"S{next(self.k)}", a0.val)
         if last == "unique" and a0 is not None:
@@ -127,6 +161,8 @@ class Typer:
             return Arr(None, "fresh")
         if last == "aggregate" and len(args) >= 1 and a0 is not None:
             return Arr("G:" + str(a0.val), "num")
+        if last == "pad" and a0 is not None:
+            return Arr(a0.idx, a0.val)
         if last in ("cumsum", "cumprod", "diff", "where", "r_", "concatenate", "abs", "logical_and", "logical_or", "logical_not", "maximum", "minimum", "asarray", "array", "astype", "copy", "isin", "flip", "roll"):
             if last in ("diff", "r_", "concatenate", "flip", "roll"):
                 # length / order changing: same space family only for diff+r_ (re-prepended element); keep the space
@@ -144,6 +180,11 @@ class Typer:
         if not (_is_pos(a.idx) and _is_pos(b.val)):
             return
         self.checked += 1
+        if a.idx != b.val and "@" in b.val and b.val.split("@", 1)[0] == a.idx:
+            off = b.val.split("@", 1)[1]
+            self.findings.append((f"{self.fd.name}|{ast.unparse(node)[:70]}", node.lineno,
+                                  f"`{ast.unparse(node)[:90]}` indexes the whole array with positions that are relative to a block starting at `{off}`: the block offset was dropped (add `{off}`), so every block after the first resolves to rows of the first block"))
+            return
         if a.idx != b.val:
             desc = {"R": "row positions of the input", "S": "positions in a sorted order", "U": "positions among the unique values"}
             self.findings.append((f"{self.fd.name}|{ast.unparse(node)[:70]}", node.lineno,
@@ -173,6 +214,10 @@ class Typer:
         a = self.ev(target, env)
         b = self.ev(idx_e, env)
         v = self.ev(val_e, env) if val_e is not None else None
+        if b is not None and b.val == "bool" and a is not None and a.val in ("fresh", None) and isinstance(target, ast.Name) and v is not None and isinstance(v.val, str) and v.val[:1] in POS:
+            # filling a fresh buffer under a mask with positions: the buffer now holds such positions
+            env[target.id] = Arr(b.idx if isinstance(b.idx, str) else None, v.val)
+            return
         if b is None or b.val == "bool":
             return
         if a is not None and a.val == "fresh" and a.idx is None and isinstance(target, ast.Name):
